@@ -29,7 +29,7 @@ EXHAUSTIVE = False
 WEIGHTS = {'add': 10, 'add_fwd': 4, 'remove': 3, 'remove_nonchild': 2, 'replace': 2, 'replace_nonchild': 2,
            'dot_inst': 3, 'dot_val': 3, 'dot_none': 2, 'to_string': 4, 'set_attr': 3, 'set_attr_none': 1,
            'set_value': 2, 'add_nested': 2, 'remove_grandchild': 1, 'remove_elsewhere': 1,
-           'share_out': 1, 'add_again': 1}
+           'share_out': 1, 'add_again': 1, 'replace_self': 2}
 
 
 def value_invalid(run, op):
